@@ -86,7 +86,7 @@ def make_case(seed):
                     tw = rng.choice([avail - 2, avail - 1, avail, avail + 1, avail + 2, 2 * avail, 2 * avail + 1, 3 * avail,
                                      5 * avail])
                     t = edge_text(rng, max(1, tw), meta['tabs'] in (1, 2, 4, 8) and rng.random() < 0.3)
-                if opts.get('--line-numbers-right-format') == '' and t[:1] in gen.LEADING_EXTENDERS:
+                if (opts.get('--line-numbers-right-format') == '' or 'no-ln-by-config' in meta['classes']) and t[:1] in gen.LEADING_EXTENDERS:
                     # without a gutter between the panels a zero-width character that opens the right panel cannot be told
                     # from one that closes the left panel
                     t = t.lstrip(''.join(gen.LEADING_EXTENDERS)) or 'x'
